@@ -318,6 +318,8 @@ type property struct {
 type objectBase struct {
 	properties []*property
 	lock       sync.Mutex
+	// The number of bytes the last unmarshal consumed, see decodedSize.
+	decoded int
 }
 
 func (v *objectBase) Size() int {
@@ -404,9 +406,14 @@ func (v *objectBase) unmarshal(p []byte, eof bool, maxElems int) (err error) {
 		v.properties = append(v.properties, &property{key: u, value: a})
 		v.lock.Unlock()
 
-		p = p[a.Size():]
+		p = p[decodedSize(a):]
 		return nil
 	}
+
+	total := len(p)
+	defer func() {
+		v.decoded = total - len(p)
+	}()
 
 	for eof {
 		u, a, err := readOne()
@@ -438,6 +445,21 @@ func (v *objectBase) unmarshal(p []byte, eof bool, maxElems int) (err error) {
 	}
 
 	return
+}
+
+// The number of bytes the value a consumed, for a which is decoded just now.
+// A container remembers what it consumed, because to walk a nested container
+// again by Size() at each level is quadratic in the depth of nesting.
+func decodedSize(a Amf0) int {
+	switch a := a.(type) {
+	case *Object:
+		return 1 + a.decoded
+	case *EcmaArray:
+		return 5 + a.decoded
+	case *StrictArray:
+		return 5 + a.decoded
+	}
+	return a.Size()
 }
 
 func (v *objectBase) marshal(b buffer) (err error) {
